@@ -1061,6 +1061,7 @@ void process_option_line(const std::string &config_line, const char *filename,
    else if (cmd == "include")
    {
       static int include_depth    = 0;
+      const auto this_filename    = cpd.filename;
       auto       this_line_number = cpd.line_number;
       const auto &include_path    = args[1];
 
@@ -1081,6 +1082,7 @@ void process_option_line(const std::string &config_line, const char *filename,
          ut.resize(static_cast<unsigned>(path_dirname_len(filename)));
          ut.append(include_path);
          ++include_depth;
+         cpd.filename = ut.c_str();      // named in diagnostics about option values
          UNUSED(load_option_file(ut.c_str(), compat_level));
          --include_depth;
       }
@@ -1088,9 +1090,11 @@ void process_option_line(const std::string &config_line, const char *filename,
       {
          // include is an absolute path
          ++include_depth;
+         cpd.filename = include_path;    // named in diagnostics about option values
          UNUSED(load_option_file(include_path.c_str(), compat_level));
          --include_depth;
       }
+      cpd.filename    = this_filename;
       cpd.line_number = this_line_number;
    }
 #endif
